@@ -27,8 +27,12 @@ pub mod strs {
     /// R10: `s.split(c)` with a char pattern (std: n occurrences give n+1 pieces)
     pub trait SplitShim {
         fn split_<'a>(&'a self, c: char) -> crate::shims::iter::Iter<&'a str>;
+        /// R10: `str::lines()` — the lines of an in-memory string (items unconstrained here)
+        fn lines_<'a>(&'a self) -> crate::shims::iter::Iter<&'a str>;
     }
     impl SplitShim for String {
+        #[verifier::external_body]
+        fn lines_<'a>(&'a self) -> (r: crate::shims::iter::Iter<&'a str>) ensures !r@.endless { unimplemented!() }
         #[verifier::external_body]
         fn split_<'a>(&'a self, c: char) -> (r: crate::shims::iter::Iter<&'a str>)
             ensures !r@.endless, r@.items.len() == crate::spec::split_at(self@, c).len(),
@@ -36,6 +40,8 @@ pub mod strs {
         { unimplemented!() }
     }
     impl SplitShim for str {
+        #[verifier::external_body]
+        fn lines_<'a>(&'a self) -> (r: crate::shims::iter::Iter<&'a str>) ensures !r@.endless { unimplemented!() }
         #[verifier::external_body]
         fn split_<'a>(&'a self, c: char) -> (r: crate::shims::iter::Iter<&'a str>)
             ensures !r@.endless, r@.items.len() == crate::spec::split_at(self@, c).len(),
